@@ -2,6 +2,9 @@
 import importlib
 import json
 import os
+import sys
+
+sys.path.insert(0, '/repo')      # some plugins import param at module level
 
 VERIF = os.path.dirname(os.path.dirname(os.path.abspath(__file__)))
 ALL = [f'C{i:02d}' for i in range(1, 21)]
@@ -13,11 +16,10 @@ def main():
     checks, na, engines = [], [], []
     props = {json.loads(l)['id']: json.loads(l) for l in open(os.path.join(VERIF, 'properties.jsonl'))}
     for pid in ALL:
-        try:
-            m = importlib.import_module(f'harness.props.{pid.lower()}')
-        except ModuleNotFoundError:
+        if not os.path.exists(os.path.join(VERIF, 'harness', 'props', f'{pid.lower()}.py')):
             na.append({'property_id': pid, 'reason': PENDING_REASON})
             continue
+        m = importlib.import_module(f'harness.props.{pid.lower()}')
         if getattr(m, 'NOT_APPLICABLE', None):
             na.append({'property_id': pid, 'reason': m.NOT_APPLICABLE})
             continue
